@@ -29,6 +29,13 @@ theorem extW_mono (W W' : List String) (h : ∀ x ∈ W, x ∈ W') (f : E) : ∀
   · exact Or.inl (h x hx)
   · exact Or.inr hx
 
+theorem safeHanded_mono (W W' : List String) (h : ∀ x ∈ W, x ∈ W') (e : E) (hs : safeHanded W e = true) :
+    safeHanded W' e = true := by
+  cases e <;> simp only [safeHanded] at hs ⊢ <;> try exact hs
+  rename_i id _
+  simp only [List.contains_iff_mem] at hs ⊢
+  exact h id hs
+
 mutual
 theorem clean_mono (W W' : List String) (h : ∀ x ∈ W, x ∈ W') : ∀ e : E, Clean W e → Clean W' e
   | .const, _ => trivial
@@ -46,8 +53,8 @@ theorem clean_mono (W W' : List String) (h : ∀ x ∈ W, x ∈ W') : ∀ e : E,
     simp only [Clean] at hc ⊢; exact ⟨cleanL_mono W W' h es hc.1, cleanG_mono W W' h gens hc.2⟩
   | .call f as ks, hc => by
     simp only [Clean] at hc ⊢
-    obtain ⟨h1, h2, h3, h4⟩ := hc
-    refine ⟨?_, ?_, ?_, ?_⟩
+    obtain ⟨h1, h2, h3, h4, h5⟩ := hc
+    refine ⟨?_, ?_, ?_, ?_, ?_⟩
     · intro n hn; rcases h1 n hn with hw | hw | hw
       · exact Or.inl (h n hw)
       · exact Or.inr (Or.inl hw)
@@ -57,6 +64,7 @@ theorem clean_mono (W W' : List String) (h : ∀ x ∈ W, x ∈ W') : ∀ e : E,
       · exact Or.inr hw
     · exact cleanL_mono (extW W f) (extW W' f) (extW_mono W W' h f) as h3
     · exact cleanL_mono (extW W f) (extW W' f) (extW_mono W W' h f) ks h4
+    · intro x hx; exact safeHanded_mono _ _ (extW_mono W W' h f) x (h5 x hx)
   | .starred e, hc => by simp only [Clean] at hc ⊢; exact clean_mono W W' h e hc
   | .ifexp t b o, hc => by
     simp only [Clean] at hc ⊢
@@ -64,6 +72,13 @@ theorem clean_mono (W W' : List String) (h : ∀ x ∈ W, x ∈ W') : ∀ e : E,
   | .named t v, hc => by simp only [Clean] at hc ⊢; exact ⟨clean_mono W W' h t hc.1, clean_mono W W' h v hc.2⟩
   | .lambda ds b, hc => by simp only [Clean] at hc ⊢; exact ⟨cleanL_mono W W' h ds hc.1, clean_mono W W' h b hc.2⟩
   | .fstring ps, hc => by simp only [Clean] at hc ⊢; exact cleanL_mono W W' h ps hc
+  | .keyarg e, hc => by simp only [Clean] at hc ⊢; exact clean_mono W W' h e hc
+  | .forStmt t i b o, hc => by
+    simp only [Clean] at hc ⊢
+    exact ⟨clean_mono W W' h t hc.1, clean_mono W W' h i hc.2.1, cleanL_mono W W' h b hc.2.2.1, cleanL_mono W W' h o hc.2.2.2⟩
+  | .ifStmt t b o, hc => by
+    simp only [Clean] at hc ⊢
+    exact ⟨clean_mono W W' h t hc.1, cleanL_mono W W' h b hc.2.1, cleanL_mono W W' h o hc.2.2⟩
   | .other, hc => by simp only [Clean] at hc
 theorem cleanL_mono (W W' : List String) (h : ∀ x ∈ W, x ∈ W') : ∀ es : List E, CleanL W es → CleanL W' es
   | [], _ => trivial
@@ -108,11 +123,11 @@ theorem hse_clean : ∀ (W : List String) (e : E), hse W e = false → Clean W e
   | W, .call f as ks, h => by
     simp only [hse, Bool.or_eq_false_iff, Bool.not_eq_false', List.all_eq_true, Bool.or_eq_true,
       List.contains_iff_mem, beq_iff_eq] at h
-    obtain ⟨⟨⟨hn, ha⟩, hk⟩, hat⟩ := h
+    obtain ⟨⟨⟨⟨hh, hn⟩, ha⟩, hk⟩, hat⟩ := h
     simp only [Clean]
     have hattr_f : ∀ a ∈ attrsIn f, a ∈ attrsIn (.call f as ks) := by
       intro a ha'; simp only [attrsIn, List.mem_append]; exact Or.inl (Or.inl ha')
-    refine ⟨?_, ?_, hseL_cleanL _ as ha, hseL_cleanL _ ks hk⟩
+    refine ⟨?_, ?_, hseL_cleanL _ as ha, hseL_cleanL _ ks hk, hh⟩
     · intro n hn'
       rcases hn n hn' with h1 | h1
       · rcases (mem_extW W f n).mp h1 with h2 | h2
@@ -136,6 +151,13 @@ theorem hse_clean : ∀ (W : List String) (e : E), hse W e = false → Clean W e
   | W, .fstring ps, h => by
     simp only [hse] at h; simp only [Clean]
     exact cleanL_mono [] W (nil_sub W) ps (hseL_cleanL [] ps h)
+  | W, .keyarg e, h => by simp only [hse] at h; simp only [Clean]; exact hse_clean W e h
+  | W, .forStmt t i b o, h => by
+    simp only [hse, Bool.or_eq_false_iff] at h; simp only [Clean]
+    exact ⟨hse_clean W t h.1.1.1, hse_clean W i h.1.1.2, hseL_cleanL W b h.1.2, hseL_cleanL W o h.2⟩
+  | W, .ifStmt t b o, h => by
+    simp only [hse, Bool.or_eq_false_iff] at h; simp only [Clean]
+    exact ⟨hse_clean W t h.1.2, hseL_cleanL W b h.1.1, hseL_cleanL W o h.2⟩
   | _, .other, h => by simp [hse] at h
 theorem hseL_cleanL : ∀ (W : List String) (es : List E), hseL W es = false → CleanL W es
   | _, [], _ => trivial
